@@ -281,6 +281,9 @@ def call(pe, name, args, kwargs, node):
           out.append(v)
       vals = out
     return tuple(vals) if name == "tuple" else list(vals)
+  if name in ("weakref.WeakKeyDictionary", "weakref.WeakValueDictionary",
+              "WeakKeyDictionary", "WeakValueDictionary") and not args:
+    return {}      # keyed by object identity; nothing is collected here
   if name in ("dict", "collections.OrderedDict", "OrderedDict"):
     # (python dictionaries keep insertion order)
     d = {}
